@@ -35,6 +35,7 @@ func runReaderProps(r *Run, prop string) {
 		c03NamedTargets(r)
 	} else {
 		c04Aliases(r)
+		c04WrapperSkips(r)
 	}
 	c03WideUnion(r)
 	n := r.N(260, 6000)
